@@ -644,7 +644,9 @@ def _stream_e2e(ctx):
             ctx.stat("e2e:zero-boost-region")
     # the check is blind if the optimisations do not engage (DESIGN 5.3): broken infrastructure, not a pass
     ntop = ctx.stats.get("e2e:TopCollector", 0)
-    if ntop and (ctx.stats.get("e2e:skipped_times>0", 0) < 0.03 * ntop or
+    # (floor for block skipping re-measured after the matcher repairs: the sound skip rule, which uses the
+    # sibling's max_quality instead of its block quality, engages in about 2-3 % of limited searches)
+    if ntop and (ctx.stats.get("e2e:skipped_times>0", 0) < 0.008 * ntop or
                  ctx.stats.get("e2e:replaced_times>1", 0) < 0.2 * ntop):
         raise RuntimeError("the end-to-end generator no longer engages the optimisations: %d limited searches, "
                            "%d with skipped_times>0, %d with replaced_times>1" % (
